@@ -35,7 +35,15 @@ use ops::{Op, Ref, Reply};
 use shadow::{name_kind, Cfg, Shadow};
 use tree::{Dirs, Spec};
 
+/// run for C12 ("a feature is in effect only if negotiated") the C05 oracles report under C12:pt:*
+static FOR_C12: std::sync::atomic::AtomicBool = std::sync::atomic::AtomicBool::new(false);
+
 pub fn oracle(out: &mut Out, prop: &str, key: String, case: &str, what: String) {
+    let (prop, key) = if prop == "C05" && FOR_C12.load(std::sync::atomic::Ordering::Relaxed) {
+        ("C12", key.replacen("C05:", "C12:pt:", 1))
+    } else {
+        (prop, key)
+    };
     let v = serde_json::json!({"prop": prop, "key": key, "case": case, "what": what});
     writeln!(out.oracle, "{}", v).unwrap();
     out.n_oracle += 1;
@@ -825,7 +833,20 @@ fn main() {
     let n_hist: usize = a.get("histories").and_then(|s| s.parse().ok()).unwrap_or(300);
     let adversarial = prop == "C06";
     let mut cfgs = configs(&mut r, n_cfg, true);
-    if !adversarial {
+    if prop == "C12" {
+        // negotiation: every configuration meets a client that does not offer everything (both
+        // standalone, where a switch needs configuration AND offer, and behind a VFS, where the
+        // offer alone decides); inode_file_handles stays off (its known C05 findings are not
+        // about negotiation)
+        FOR_C12.store(true, std::sync::atomic::Ordering::Relaxed);
+        let mut v = configs(&mut r, n_cfg, true);
+        v.extend(configs(&mut r, n_cfg, false).drain(2..));
+        cfgs = v.into_iter().enumerate().map(|(k, mut c)| {
+            c.inode_file_handles = false;
+            c.nocap = [8u8, 1, 2, 4, 9, 3, 6, 15][k % 8] | if k >= 8 { r.below(16) as u8 } else { 0 };
+            c
+        }).collect();
+    } else if !adversarial {
         // behind a VFS (`do_import = false`): the options handed to `init` are the negotiated
         // ones and are honoured whatever the configuration says; names are the VFS's business,
         // so only the benign generator runs here
